@@ -1,12 +1,16 @@
 /* C04: single-direction routing follows steepest descent.
  * Defines: N (nodes), D (max neighbours), GRID (0 real profile grid, 1 table grid), BLMASK (bit i = node i is a
  * base level; concrete per query), USE_MASK (0 none, 1 concrete MASKBITS, 2 symbolic), TABLE (header with the adjacency table),
+ * THREADS (0/1: sequential kernel; >1: apply_par, blocks executed one after the other in the caller's thread),
  * EXCL_TINY (exclude the known-finding class "positive slope <= DBL_MIN"), LOOPED (profile: looped borders)
  */
 #include "fsv_harness.h"
 #include "unit.h"
 #ifndef D
 #define D 2
+#endif
+#ifndef THREADS
+#define THREADS 0
 #endif
 #if GRID == 1
 #include TABLE
@@ -54,10 +58,10 @@ void fsv_harness(void)
 #endif
     dist[i * 2] = dist[i * 2 + 1] = in_spacing[0];
   }
-  fsv_single_seq(in_e, in_mask, USE_MASK, bl, nbl, st, st, in_spacing[0], 0, 0, 0, rec, rdist, rweight, rcount, dcount, donors);
+  fsv_single_seq(in_e, in_mask, USE_MASK, bl, nbl, st, st, in_spacing[0], 0, 0, 0, 0, THREADS, rec, rdist, rweight, rcount, dcount, donors);
 #else
   for (int i = 0; i < N; i++) { cnt[i] = T_cnt[i]; for (int k = 0; k < D; k++) { nb[i * D + k] = T_nb[i * D + k]; dist[i * D + k] = T_dist[i * D + k]; } }
-  fsv_single_seq(in_e, in_mask, USE_MASK, bl, nbl, 0, 0, 0, cnt, nb, dist, rec, rdist, rweight, rcount, dcount, donors);
+  fsv_single_seq(in_e, in_mask, USE_MASK, bl, nbl, 0, 0, 0, cnt, nb, dist, T_status, THREADS, rec, rdist, rweight, rcount, dcount, donors);
 #endif
   for (int i = 0; i < N; i++) { FSV_OBS_U64(rec[i]); FSV_OBS_F64(rdist[i]); FSV_OBS_F64(rweight[i]); FSV_OBS_U64(rcount[i]); FSV_OBS_U64(dcount[i]); }
 
